@@ -692,6 +692,7 @@ func c10RunMem(r obsSink, mw *c10MemWorld, c c10Case, verbose bool) {
 	}
 	r.Count("override_attempts_seen", tk.model.OverrideAttempts)
 	r.Count("ineffective_edits_seen", tk.model.IneffectiveEdits)
+	r.Count("authors_with_only_ineffective_edits", len(tk.model.IneffectiveOnlyAuthors()))
 	nontrivial := len(tk.ops) > 1
 	if c.Gen == "enum" {
 		r.Case("enum:"+c.symString(), nontrivial)
